@@ -88,11 +88,16 @@ impl Config {
     /// The four setters are called in an order that is a deterministic function of the configuration (all 24
     /// orders occur over a workload), and a third of the time a setter is first called with ANOTHER value
     /// (the last value wins): a configuration is its final option values, not the way they were reached.
-    pub fn builder(&self) -> QRBuilder {
+    /// deterministic function of the configuration: seeds the setter history, the input carrier and the transport
+    pub fn history_seed(&self) -> u64 {
         let mut h = oracle::rng::mix(self.input.len() as u64 ^ 0x5e77e2, oracle::rng::fnv(&self.input[..self.input.len().min(16)]));
         for x in [self.mode, self.level, self.version, self.mask] {
             h = oracle::rng::mix(h, x.map_or(99, |v| v as u64));
         }
+        h
+    }
+    pub fn builder(&self) -> QRBuilder {
+        let h = self.history_seed();
         let mut rng = oracle::rng::Rng::new(h);
         let mut order = [0usize, 1, 2, 3];
         for i in (1..4).rev() {
@@ -365,7 +370,64 @@ pub fn outcome_of(r: Result<Result<QRCode, fast_qr::qr::QRCodeError>, String>) -
 
 /// Build through the public API.
 pub fn build(cfg: &Config) -> Outcome {
-    outcome_of(guarded(|| cfg.builder().build()))
+    let h = cfg.history_seed();
+    outcome_of(guarded(|| cfg.builder().build().map(|q| transport(q, h))))
+}
+
+/// The monitors are handed "the symbol that was built" - but a value of a `Clone` type reaches its user in many ways:
+/// as returned, as a `clone()`, assigned with `clone_from` into a slot that held a smaller, an equal or a bigger
+/// symbol (directly or through `Option` / `Vec` / `Box`, the form `clippy::assigning_clones` produces), or handed
+/// over from another thread. All of them must be the same symbol. The slots' unused tails hold default modules, as
+/// any `QRCode` made by the crate does, so a correct copy of either the square or the whole array is accepted.
+pub fn transport(q: QRCode, h: u64) -> QRCode {
+    let mut rng = oracle::rng::Rng::new(oracle::rng::mix(h, 0x7a115));
+    let slot_side = |rng: &mut oracle::rng::Rng, q: &QRCode| -> usize {
+        match rng.below(4) {
+            0 => 21,
+            1 => 177,
+            2 => q.size,
+            _ => 17 + 4 * (1 + rng.below(40)),
+        }
+    };
+    match rng.below(16) {
+        0..=7 => q,
+        8 => q.clone(),
+        9 | 10 => {
+            let mut slot = QRCode::default(slot_side(&mut rng, &q));
+            slot.clone_from(&q);
+            slot
+        }
+        11 => {
+            let mut slot = Some(QRCode::default(slot_side(&mut rng, &q)));
+            slot.clone_from(&Some(q));
+            slot.unwrap()
+        }
+        12 => {
+            let mut slot = vec![QRCode::default(slot_side(&mut rng, &q))];
+            slot.clone_from(&vec![q]);
+            slot.pop().unwrap()
+        }
+        13 => {
+            let mut slot = Box::new(QRCode::default(slot_side(&mut rng, &q)));
+            slot.clone_from(&Box::new(q));
+            *slot
+        }
+        14 => {
+            let boxed = Box::new(q);
+            match std::thread::Builder::new().stack_size(1 << 20).spawn(move || boxed) {
+                Ok(j) => *j.join().expect("transport thread"),
+                Err(_) => unreachable!("cannot spawn the transport thread"),
+            }
+        }
+        _ => {
+            // clone of a clone, the original dropped in between
+            let c = q.clone();
+            drop(q);
+            let mut slot = QRCode::default(21);
+            slot.clone_from(&c);
+            slot
+        }
+    }
 }
 
 /// build through one setter call per option in a fixed order (reference of the history monitor)
@@ -395,7 +457,8 @@ pub fn build_recorded(cfg: &Config) -> (Outcome, Vec<Recorded>) {
         Err(p) => return (Outcome::Panic(p), vec![]),
     };
     fast_qr::verif_hooks::start();
-    let out = outcome_of(guarded(|| b.build()));
+    let h = cfg.history_seed();
+    let out = outcome_of(guarded(|| b.build().map(|q| transport(q, h))));
     let rec = fast_qr::verif_hooks::take()
         .into_iter()
         .map(|c| Recorded { mask: mask_no(c.mask), score: c.score, size: c.size, modules: c.modules })
